@@ -23,8 +23,8 @@ PID = "C09"
 LEVEL = "fault_enumeration"
 RULE = ("scenario = (hops 1..3, phase in ready / mid-transfer / building, teardown by originator / relay k / exit / nobody / "
         "originator vanishes) x fault set over the flights of the scenario (each of drop / duplicate / delay 30 s): all "
-        "single faults over the first 24 flights exhaustively per scenario (quick: a third of the scenarios per seed; "
-        "thorough: all, plus all pairs for 2-hop scenarios), Hypothesis-drawn larger fault sets; plus join-limit and "
+        "single faults over the first 24 flights exhaustively per scenario (thorough adds all fault "
+        "pairs for 2-hop scenarios), Hypothesis-drawn larger fault sets; plus join-limit and "
         "relay_early sub-checks with drawn limits. Non-trivial = at least one control message (create/created/extend/"
         "extended/destroy) of X was lost or delayed so that a timer has to reclaim; distinct = (scenario, fault set).")
 ASSUMPTIONS = [
@@ -364,8 +364,8 @@ def _random_shard(ctx: Ctx, shard: int, nshards: int, n: int) -> None:
 
 def run(ctx: Ctx) -> None:
     if ctx.quick:
-        shard_run(ctx, _enum_shard, extra=(ctx.seed, False))
-        shard_run(ctx, _random_shard, extra=(25,))
+        shard_run(ctx, _enum_shard, extra=(-1, False))
+        shard_run(ctx, _random_shard, extra=(60,))
     else:
         shard_run(ctx, _enum_shard, extra=(-1, True))
         shard_run(ctx, _random_shard, extra=(800,))
